@@ -21,8 +21,8 @@ func init() {
 	Register(&Rule{
 		ID:    "R-BYTECLASS",
 		Doc:   "exact byte-set propagation over SSA edges (all 256 values, both HTML modes): encodeString's verbatim set = complement of escapeIndex's tail-loop and word-scan sets = encoding/json safeSet/htmlSafeSet (read from GOROOT); short escapes = {\\\\ \" \\b \\f \\n \\r \\t}; whitespace loops = {sp ht nl cr}; parseValue and Tokenizer.Next dispatch the same first bytes to the same scanners; string bodies reject exactly [0,0x20); escape letters, hex digits and decimal digits are the RFC 8259 / RFC 3339 sets",
-		Props: []string{"C01", "C02", "C05", "C17", "C18"},
-		Min:   map[string]int{"C01": 5, "C02": 6, "C05": 8, "C17": 2, "C18": 2},
+		Props: []string{"C01", "C02", "C05", "C11", "C14", "C17", "C18"},
+		Min:   map[string]int{"C01": 5, "C02": 6, "C05": 8, "C11": 1, "C14": 6, "C17": 2, "C18": 2},
 		Run:   runByteClass,
 	})
 }
